@@ -1,6 +1,7 @@
 import Restli.Proofs.Escape
 import Restli.Proofs.RoundTrip3
 import Restli.Proofs.RoundTripJson
+import Restli.Proofs.JsonDoc
 /-! # C01 — codec round trip (property theorems)
 
 Part 1: the three ROR2 string flavours, for **every byte string**, against the regenerated
@@ -136,6 +137,22 @@ theorem c01_json_roundtrip_tree (env : Env) (F : FloatLaws) (C : ConvLaws) (hS :
       .ok (norm env f ty v) [] :=
   json_roundtrip_tree env F C (schemaOK_of_check env hS) ign f scopeW scopeR top ty v doc hv henc
 
+/-- **JSON (compact writer), byte level**: what the generated `UnmarshalJSON` — strict RFC 8259
+parse, then the generated unmarshalers with scope tracking and required-field accounting — returns
+on the bytes `MarshalJSON` wrote is the normalised value. Besides the hypotheses of the tree-level
+theorem: `NumLaws` (strconv's float text is one JSON number token; an assumption about third-party
+output, compared with Go on every run) and `DocTextOK` (the strings and keys of the document are
+valid UTF-8 — easyjson replaces invalid sequences by U+FFFD, which no decoder can undo; byte
+strings go through the Latin-1 mapping and need nothing). Composition of `json_roundtrip_tree`
+with `parse_renderJson` (writer's escaper against the strict parser, number grammar, structure,
+parser fuel). -/
+theorem c01_json_roundtrip_bytes (env : Env) (F : FloatLaws) (C : ConvLaws) (N : NumLaws)
+    (hS : schemaOKb env = true) (ign f : Nat) (ty : Ty) (v : Value) (kvs : List (Bytes × Doc)) (hv : ValOK v)
+    (henc : encode (wcfg env) f [] ty v = .ok (.obj kvs)) (htext : DocTextOK (.obj kvs)) :
+    unmarshalJson { env := env, tracker := { excl := .empty, ignore := ign } } ty (renderJson (.obj kvs)) =
+      some (.ok (norm env f ty v) []) :=
+  json_roundtrip_obj env F C N (schemaOK_of_check env hS) ign f ty v kvs hv henc htext
+
 /-- bytes and fixed values survive the JSON string representation: every byte 0x00–0xFF -/
 theorem c01_json_bytes_roundtrip (b : Bytes) : jsonPrim .bytes (.str (latin1 b)) = .ok (.bytes b) [] :=
   jsonPrim_bytes b
@@ -169,5 +186,18 @@ example (F : FloatLaws) :
       .ok (norm exEnv 6 (.ref "R") exVal) { rest := [], start := false, missing := [] } :=
   c01_ror2_roundtrip_query tablesV2 c01_tables_ok_v2 F exEnv (by decide) 0 6 _ exVal exKvs
     (by simp [exVal, ValOK, ValOKKvs, ValOKList, KeysNodup]) rfl
+
+/-- the same value through JSON: every hypothesis but the three strconv assumptions is met -/
+example (F : FloatLaws) (C : ConvLaws) (N : NumLaws) :
+    unmarshalJson { env := exEnv, tracker := { excl := .empty, ignore := 0 } } (.ref "R") (renderJson (.obj exKvs)) =
+      some (.ok (norm exEnv 6 (.ref "R") exVal) []) :=
+  c01_json_roundtrip_bytes exEnv F C N (by decide) 0 6 _ exVal exKvs
+    (by simp [exVal, ValOK, ValOKKvs, ValOKList, KeysNodup]) rfl (by
+      have : exKvs = [([101], Doc.str [66]),
+          ([109], Doc.obj [([], Doc.arr []), ([122], Doc.arr [Doc.int 1, Doc.int 2])]),
+          ([114], Doc.int (-5)), ([117], Doc.obj [([98], Doc.str [40, 37, 43, 32])]), ([120], Doc.bool true)] := rfl
+      rw [this]
+      simp only [DocTextOK, DocTextOKKvs, DocTextOKItems, and_true, true_and]
+      decide)
 
 end Restli.Codec
